@@ -23,6 +23,10 @@
 (* is what client.go did before (keypair.EncryptPrivateKey = library       *)
 (* default parameters) - finding F16; kept as the counterexample model.    *)
 (*                                                                         *)
+(* Fault action SaveFails: each saving call also occurs with the wallet     *)
+(* file unwritable; the call fails and must leave client and file as they  *)
+(* were (the rollback paths of client.go).                                 *)
+(*                                                                         *)
 (* Monitor part.  live[id] is the password the user was told protects      *)
 (* account id ("-" = not in the wallet); it is maintained from the API     *)
 (* contract only.  PropC43: in the open wallet and in the file, every live *)
@@ -68,16 +72,21 @@ ModelGet(W, id, try) ==
     ELSE IF Opens(W.accts[p], try, W.params) THEN [res |-> "ok", id |-> id] ELSE [res |-> "fail", id |-> 0]
 
 (* emission ****************************************************************)
-Emit(op, args, obs, w2, mut) ==
-    ~EmitOn \/ PrintT(<<"EDGE", ToJson([h |-> hist, op |-> op, a |-> args, obs |-> obs, ld |-> loaded, mut |-> mut,
+Emit(op, args, obs, w2, mut, f) ==
+    ~EmitOn \/ PrintT(<<"EDGE", ToJson([h |-> hist, op |-> op, a |-> args, obs |-> obs, ld |-> loaded, mut |-> mut, f |-> f,
                                           params |-> w.params, ids2 |-> IdsOf(w2), params2 |-> w2.params])>>)
 
 Step(op, args, obs, w2, ld2, nid2, live2) ==      \* a call that changes the wallet (saved before it returns)
     /\ Len(hist) <= MaxHist
     /\ w' = w2 /\ disk' = w2 /\ loaded' = ld2 /\ nextId' = nid2 /\ live' = live2
     /\ hist' = Append(hist, [op |-> op, a |-> args])
-    /\ Emit(op, args, obs, w2, TRUE)
-Stay(op, args, obs) == UNCHANGED vars /\ Emit(op, args, obs, w, FALSE)
+    /\ Emit(op, args, obs, w2, TRUE, FALSE)
+Stay(op, args, obs) == UNCHANGED vars /\ Emit(op, args, obs, w, FALSE, FALSE)
+\* Fault action: the same call while the wallet file cannot be written (WalletData.Save fails inside the call: temp file
+\* blocked, read-only directory, disk full).  Every ClientImpl method rolls its in-memory change back and returns an
+\* error, so nothing changes - neither in the client nor, after the next successful save, in the file.
+SaveFails(op, args) == Len(hist) <= MaxHist /\ UNCHANGED vars /\ Emit(op, args, [res |-> "fail", id |-> 0], w, FALSE, TRUE)
+StepF(op, args, obs, w2, ld2, nid2, live2) == Step(op, args, obs, w2, ld2, nid2, live2) \/ SaveFails(op, args)
 Ok(id) == [res |-> "ok", id |-> id]
 Fail == [res |-> "fail", id |-> 0]
 None == [res |-> "none", id |-> 0]
@@ -91,7 +100,7 @@ Init == \E p \in InitParams :
 Add(op, label, pw, enc) ==
     LET a  == [id |-> nextId, label |-> label, pw |-> pw, enc |-> enc]
         w2 == [w EXCEPT !.accts = Append(@, a), !.dflt = IF Len(w.accts) = 0 THEN nextId ELSE @]
-    IN Step(op, Arg(nextId, label, pw, "", <<>>), Ok(nextId), w2, FALSE, nextId + 1, [live EXCEPT ![nextId] = pw])
+    IN StepF(op, Arg(nextId, label, pw, "", <<>>), Ok(nextId), w2, FALSE, nextId + 1, [live EXCEPT ![nextId] = pw])
 
 \* ClientImpl.NewAccount: refuses the empty password and a label in use
 New(label, pw) ==
@@ -113,18 +122,19 @@ Delete(id, try) ==
     LET p == Pos(w, id) IN
     IF p = 0 THEN Stay("delete", Arg(id, "", try, "", <<>>), None)
     ELSE IF w.dflt = id \/ ~Opens(w.accts[p], try, w.params) THEN Stay("delete", Arg(id, "", try, "", <<>>), Fail)
-    ELSE Step("delete", Arg(id, "", try, "", <<>>), Ok(id), [w EXCEPT !.accts = RemoveAt(@, p)], FALSE, nextId,
+    ELSE StepF("delete", Arg(id, "", try, "", <<>>), Ok(id), [w EXCEPT !.accts = RemoveAt(@, p)], FALSE, nextId,
               [live EXCEPT ![id] = Dead])
 
 SetDefault(id) ==
-    IF Pos(w, id) = 0 THEN Stay("setdefault", Arg(id, "", "", "", <<>>), Fail)
-    ELSE Step("setdefault", Arg(id, "", "", "", <<>>), Ok(id), [w EXCEPT !.dflt = id], FALSE, nextId, live)
+    IF w.dflt = id /\ id # 0 THEN Stay("setdefault", Arg(id, "", "", "", <<>>), Ok(id))      \* already the default: returns without saving
+    ELSE IF Pos(w, id) = 0 THEN Stay("setdefault", Arg(id, "", "", "", <<>>), Fail)
+    ELSE StepF("setdefault", Arg(id, "", "", "", <<>>), Ok(id), [w EXCEPT !.dflt = id], FALSE, nextId, live)
 
 \* ClientImpl.SetLabel: a label in use (also by the account itself) is refused
 SetLabel(id, l) ==
     LET p == Pos(w, id) IN
     IF HasLabel(w, l) \/ p = 0 THEN Stay("setlabel", Arg(id, l, "", "", <<>>), Fail)
-    ELSE Step("setlabel", Arg(id, l, "", "", <<>>), Ok(id), [w EXCEPT !.accts[p].label = l], FALSE, nextId, live)
+    ELSE StepF("setlabel", Arg(id, l, "", "", <<>>), Ok(id), [w EXCEPT !.accts[p].label = l], FALSE, nextId, live)
 
 \* ClientImpl.ChangePassword: equal passwords succeed without any check; otherwise the old one must open the key,
 \* which is then sealed with the new password under the wallet's parameters
@@ -133,7 +143,7 @@ ChPw(id, old, new) ==
     IF old = new THEN Stay("chpw", Arg(id, "", old, new, <<>>), Ok(id))
     ELSE IF p = 0 THEN Stay("chpw", Arg(id, "", old, new, <<>>), Fail)
     ELSE IF ~Opens(w.accts[p], old, w.params) THEN Stay("chpw", Arg(id, "", old, new, <<>>), Fail)
-    ELSE Step("chpw", Arg(id, "", old, new, <<>>), Ok(id),
+    ELSE StepF("chpw", Arg(id, "", old, new, <<>>), Ok(id),
               [w EXCEPT !.accts[p].pw = new, !.accts[p].enc = w.params], FALSE, nextId, [live EXCEPT ![id] = new])
 
 \* close and open the wallet file again
